@@ -5,7 +5,8 @@ ID = "C10"
 RULE = ("every payload type 0..299 once; message lists with types from {0,1,4,5,127,128,129,254,255,256,509,510,511,765,65535,...} and payload lengths from "
         "{0,1,2,254,255,256,509,510,511,random<=700}, payload bytes incl. zero runs that need emulation prevention, coded "
         "with 0xFF extension bytes + trailing bits; read from contiguous RBSP, from escaped NALs in random chunkings, "
-        "complete and incomplete; every truncation of some; type 128 in first and later position; 1..10 extra next() "
+        "complete and incomplete; every truncation of some; payloads of 2^k-1..2^k+4000 bytes (k to 16, thorough 20) complete and cut short "
+        "around 2^k; types / sizes coded with 16843009..33686018 bytes of 0xFF; type 128 in first and later position; 1..10 extra next() "
         "calls after the end. observable: every result of next(). non-trivial = at least one message or an error after one")
 CORRESPONDENCE = "Model/Sei.v sei_next vs SeiReader::next"
 ASSUMPTIONS = ["types/sizes around 2^32 (16843009 bytes of 0xFF) run on the implementation only, judged by the oracle in extra_check; the model side is theorem C10_u32_overflow"]
@@ -64,6 +65,21 @@ def gen(tier, rng):
     # (`seibig pre n post extra`), implementation only - the model side of this is theorem C10_u32_overflow
     for pre, post in (("-", "000080"), ("-", "010080"), ("-", "fe0080"), ("05", "0180"), ("05", "fe80"), ("0500" + "05", "0280")):
         cases.append("!seibig %s 16843009 %s 1" % (pre, post))
+    # ... and past it by further 0xFF bytes (a run length that is itself multiplied before the overflow check)
+    for nff in (16843010, 16843011, 16843264, 33686018):
+        for pre, post in (("-", "fe0080"), ("05", "0180")):
+            cases.append("!seibig %s %d %s 1" % (pre, nff, post))
+    # payloads around 2^k bytes (k = 12..16, thorough ..20), complete and cut short at / just past the power of two
+    for k in ([12, 16] if tier == "quick" else [12, 13, 15, 16, 17, 18, 20]):
+        for size in ((1 << k) - 1, 1 << k, (1 << k) + 1, (1 << k) + 4000):
+            body = bytes(rng.randrange(1, 255) for _ in range(size))
+            full = enc_msgs([(5, body), (1, b"\x07")])
+            cases.append("sei raw:%s 2" % hx(full))
+            head = len(ff(5)) + len(ff(size))
+            for present in sorted({(1 << k) - 1, 1 << k, (1 << k) + 1, size - 1, size - 2}):
+                if 0 <= present < size:
+                    cases.append("sei raw:%s 2" % hx(full[:head + present]))
+                    cases.append("sei raw:%s 2" % hx(full[:head + present] + b"\x80"))
     return cases
 
 
